@@ -41,6 +41,8 @@ pub struct Ctx {
     pub rowfault: Option<(String, Vec<u8>)>,
     /// a trigger that makes one kind of statement fail, armed for the next operation only
     pub sqlfault: bool,
+    /// the file-size limit is lowered for the next operation only
+    pub fsize: bool,
     /// further server instances on the same data directory (SQLite): number -> (server, store)
     pub insts: HashMap<u32, (Server, Arc<LogStore>)>,
     pub cur_inst: u32,
@@ -75,6 +77,7 @@ impl Ctx {
             held: None,
             rowfault: None,
             sqlfault: false,
+            fsize: false,
             insts: HashMap::new(),
             cur_inst: 0,
             raw: false,
@@ -131,6 +134,141 @@ impl Ctx {
         }
         let shared = Shared(self.store.as_ref().unwrap().clone());
         self.server = Some(Server::new(self.cfg(), shared));
+    }
+
+    /// `race C NW ROUNDS`: free-running overlap, with NO wrapper and no scheduler between the Server
+    /// and the backend: NW writers (for SQLite each with its own Server on the directory) each send a
+    /// stream of ROUNDS add_version requests for client C (parent = the latest version they know of),
+    /// while one thread keeps sending add_snapshot for the most recently accepted version and one
+    /// keeps reading.  Reports: requests answered with an error although they took less than the
+    /// lock-wait budget, parents accepted twice, accepted versions that are not on the stored chain.
+    pub fn race(&mut self, c: u32, nw: usize, rounds: usize) {
+        use std::sync::atomic::{AtomicBool, AtomicUsize, Ordering};
+        use std::sync::Mutex;
+        use std::time::Instant;
+        let cu = self.client(c);
+        let mk = |me: &Ctx| -> Server {
+            match me.backend {
+                Backend::Sqlite => Server::new(me.cfg(), SqliteStorage::new(me.data_dir()).expect("open sqlite")),
+                Backend::InMem => unreachable!(),
+            }
+        };
+        // the starting point: the latest version as the store has it
+        let start_latest = {
+            let server = self.server.as_ref().unwrap();
+            let mut txn = server.txn(cu).expect("txn");
+            let l = txn.get_client().expect("get_client").map(|c| c.latest_version_id).unwrap_or(Uuid::nil());
+            drop(txn);
+            l
+        };
+        let extra: Vec<Server> = if self.backend == Backend::Sqlite { (0..nw + 2).map(|_| mk(self)).collect() } else { vec![] };
+        let main = self.server.as_ref().unwrap();
+        let pick = |i: usize| -> &Server { if extra.is_empty() { main } else { &extra[i] } };
+        let published = Mutex::new(start_latest);
+        let accepted: Mutex<Vec<(Uuid, Uuid)>> = Mutex::new(vec![]);
+        let fast_errs: Mutex<Vec<String>> = Mutex::new(vec![]);
+        let slow_errs = AtomicUsize::new(0);
+        let snaps_ok = AtomicUsize::new(0);
+        let reads_ok = AtomicUsize::new(0);
+        let done = AtomicBool::new(false);
+        let budget_ms: u128 = 4000;
+        let gate = std::sync::Barrier::new(nw + 2);
+        let note = |what: &str, t0: Instant, e: String| {
+            let ms = t0.elapsed().as_millis();
+            if ms < budget_ms {
+                let mut f = fast_errs.lock().unwrap();
+                if f.len() < 3 { f.push(format!("{what}:{ms}ms:{}", e.replace(' ', "_").chars().take(80).collect::<String>())); } else { f.push(String::new()); }
+            } else {
+                slow_errs.fetch_add(1, Ordering::SeqCst);
+            }
+        };
+        std::thread::scope(|sc| {
+            let mut ws = vec![];
+            for w in 0..nw {
+                let (published, accepted, note, gate) = (&published, &accepted, &note, &gate);
+                let srv = pick(w);
+                ws.push(sc.spawn(move || {
+                    let mut parent = start_latest;
+                    gate.wait();
+                    for r in 0..rounds {
+                        let t0 = Instant::now();
+                        match catch_unwind(AssertUnwindSafe(|| srv.add_version(cu, parent, vec![w as u8, r as u8, 7]))) {
+                            Ok(Ok((AddVersionResult::Ok(v), _))) => {
+                                accepted.lock().unwrap().push((v, parent));
+                                *published.lock().unwrap() = v;
+                                parent = v;
+                            }
+                            Ok(Ok((AddVersionResult::ExpectedParentVersion(l), _))) => parent = l,
+                            Ok(Err(e)) => note("add_version", t0, format!("{e:?}")),
+                            Err(_) => note("add_version", t0, "panic".into()),
+                        }
+                    }
+                }));
+            }
+            let (published, note, done, snaps_ok, reads_ok, gate) = (&published, &note, &done, &snaps_ok, &reads_ok, &gate);
+            let ssrv = pick(nw);
+            sc.spawn(move || {
+                let mut k = 0u8;
+                gate.wait();
+                while !done.load(Ordering::SeqCst) {
+                    let v = *published.lock().unwrap();
+                    if v.is_nil() { std::thread::yield_now(); continue; }
+                    let t0 = Instant::now();
+                    k = k.wrapping_add(1);
+                    match catch_unwind(AssertUnwindSafe(|| ssrv.add_snapshot(cu, v, vec![9, k]))) {
+                        Ok(Ok(())) => { snaps_ok.fetch_add(1, Ordering::SeqCst); }
+                        Ok(Err(e)) => note("add_snapshot", t0, format!("{e:?}")),
+                        Err(_) => note("add_snapshot", t0, "panic".into()),
+                    }
+                }
+            });
+            let rsrv = pick(nw + 1);
+            sc.spawn(move || {
+                gate.wait();
+                while !done.load(Ordering::SeqCst) {
+                    let v = *published.lock().unwrap();
+                    let t0 = Instant::now();
+                    match catch_unwind(AssertUnwindSafe(|| rsrv.get_child_version(cu, v))) {
+                        Ok(Ok(_)) => { reads_ok.fetch_add(1, Ordering::SeqCst); }
+                        Ok(Err(e)) => note("get_child_version", t0, format!("{e:?}")),
+                        Err(_) => note("get_child_version", t0, "panic".into()),
+                    }
+                    let t0 = Instant::now();
+                    match catch_unwind(AssertUnwindSafe(|| rsrv.get_snapshot(cu))) {
+                        Ok(Ok(_)) => { reads_ok.fetch_add(1, Ordering::SeqCst); }
+                        Ok(Err(e)) => note("get_snapshot", t0, format!("{e:?}")),
+                        Err(_) => note("get_snapshot", t0, "panic".into()),
+                    }
+                }
+            });
+            for w in ws { let _ = w.join(); }
+            done.store(true, Ordering::SeqCst);
+        });
+        // afterwards, one at a time: the chain from the starting point is exactly the accepted versions
+        let acc = accepted.into_inner().unwrap();
+        let mut chain: Vec<(Uuid, Uuid)> = vec![];
+        let mut at = start_latest;
+        let mut walk_err = false;
+        loop {
+            match main.get_child_version(cu, at) {
+                Ok(GetVersionResult::Success { version_id, parent_version_id, .. }) => { chain.push((version_id, parent_version_id)); at = version_id; }
+                Ok(_) => break,
+                Err(_) => { walk_err = true; break; }
+            }
+            if chain.len() > acc.len() + 5 { break; }
+        }
+        let mut parents: Vec<Uuid> = acc.iter().map(|x| x.1).collect();
+        parents.sort(); let np = parents.len(); parents.dedup();
+        let twice = np - parents.len();
+        let orphans = acc.iter().filter(|x| !chain.contains(x)).count();
+        let extra_on_chain = chain.iter().filter(|x| !acc.contains(x)).count();
+        let f = fast_errs.into_inner().unwrap();
+        let first: Vec<String> = f.iter().filter(|x| !x.is_empty()).cloned().collect();
+        let line = format!("race fast_errors={} slow_errors={} accepted={} parents_twice={} orphans={} unacknowledged_on_chain={} walk={} snaps={} reads={} first={}",
+            f.len(), slow_errs.load(Ordering::SeqCst), acc.len(), twice, orphans, extra_on_chain, if walk_err { "error" } else { "ok" },
+            if snaps_ok.load(Ordering::SeqCst) > 0 { "some" } else { "none" }, if reads_ok.load(Ordering::SeqCst) > 0 { "some" } else { "none" },
+            if first.is_empty() { "-".to_string() } else { first.join(";") });
+        self.emit(format!("race {c} {nw} {rounds}"), line);
     }
 
     /// `txn C call...`: calls are gc | nc=ID | ss=VER/SINCE/PAYLOAD | gsd=VER | gvp=PARENT | gv=VER |
@@ -864,6 +1002,11 @@ impl Ctx {
                 self.storage_txn(c, calls);
                 return;
             }
+            ["race", c, nw, rounds] => {
+                assert!(self.raw, "race needs the raw mode");
+                self.race(c.parse().unwrap(), nw.parse().unwrap(), rounds.parse().unwrap());
+                return;
+            }
             ["raw"] => {
                 self.raw = true;
                 self.open(true);
@@ -958,6 +1101,19 @@ impl Ctx {
                 self.emit(format!("fault {k}:before"), "faultset".into());
                 return;
             }
+            ["fsizefault", kib, k] => {
+                // the COMMIT itself fails: for the next operation only, the process may not extend any
+                // file beyond KIB kibibytes (RLIMIT_FSIZE, SIGXFSZ ignored).  In WAL mode the frames of
+                // a transaction are appended to the log while COMMIT executes, so an operation with a
+                // payload larger than that runs every storage step successfully except the commit, which
+                // SQLite answers with an I/O error after rolling the transaction back.  The model is told
+                // that storage call K (the commit) of that operation fails without effect.  SQLite only.
+                let kib: u64 = kib.parse().unwrap();
+                crate::store::set_fsize_limit(Some(kib * 1024));
+                self.fsize = true;
+                self.emit(format!("fault {k}:before"), "faultset".into());
+                return;
+            }
             ["lockbegin", table, stmt] => {
                 // another connection holds the write lock while the next operation asks for its
                 // transaction, and lets go the moment that call returns; in addition the first
@@ -1008,6 +1164,12 @@ impl Ctx {
 
     /// a fault plan applies to one operation; report how many faults actually fired
     pub fn after_op(&mut self) {
+        if self.fsize {
+            self.fsize = false;
+            crate::store::set_fsize_limit(None);
+            self.emit("mark fired 1".to_string(), "mark".into());
+            return;
+        }
         if self.sqlfault {
             self.sqlfault = false;
             if let Some(st) = self.store.as_ref() {
